@@ -752,6 +752,30 @@ impl<'tcx> Extract<'tcx> {
                 }
             }
         }
+        // pointers to statics (possibly through one promoted allocation): `&STATIC` / `&&STATIC`
+        if let mir::Const::Val(mir::ConstValue::Scalar(rustc_middle::mir::interpret::Scalar::Ptr(ptr, _)), _) = c.const_ {
+            let (prov, _off) = ptr.prov_and_relative_offset();
+            let mut aid = prov.alloc_id();
+            for _ in 0..3 {
+                match tcx.global_alloc(aid) {
+                    rustc_middle::mir::interpret::GlobalAlloc::Static(did) => {
+                        o.push(("static", s(self.path(did))));
+                        break;
+                    }
+                    rustc_middle::mir::interpret::GlobalAlloc::Memory(a) => {
+                        let a = a.inner();
+                        let ptrs = a.provenance().ptrs();
+                        if ptrs.len() == 1 {
+                            let (_, p2) = ptrs.iter().next().unwrap();
+                            aid = p2.alloc_id();
+                        } else {
+                            break;
+                        }
+                    }
+                    _ => break,
+                }
+            }
+        }
         if !rendered {
             let mut t = String::new();
             let _ = write!(t, "{}", c.const_);
